@@ -11,6 +11,13 @@ service, algorithm, key blob, method name, signed by another key, truncated, bit
 / keyboard-interactive with 0-2 query rounds / INFO_RESPONSE at arbitrary points /
 gssapi-with-mic and gssapi-keyex against a stub GSS context / unknown method names.
 
+Multi-message exchanges are program building blocks of their own: a keyboard-interactive exchange
+= the request (application answers with an InteractiveQuery, or a verdict at once) followed by 0-3
+INFO_RESPONSE rounds whose application results are generated per round (a further query, or
+FAILED / PARTIAL / SUCCESSFUL), with 0-2 OTHER steps (any kind: other methods, probes, another
+exchange, a gssapi-with-mic exchange that is then abandoned) interleaved before every round.
+Every request step names the session's user or (generated) one of the other users.
+
 Oracle, after every step: "granted" (USERAUTH_SUCCESS among the replies, or any of
 Transport.is_authenticated(), AuthHandler.authenticated, Transport.authenticated true) implies
  (1) the application callback responsible for this (user, method) was invoked during this step
@@ -18,7 +25,10 @@ Transport.is_authenticated(), AuthHandler.authenticated, Transport.authenticated
  (2) publickey: the request carried a signature that the independent verifier accepts over
      string(session id of THIS session) || 50 || user || "ssh-connection" || "publickey" || TRUE || algorithm || key;
      gssapi: the stub's MIC check passed;
- (3) a probe (no signature) is never granted.
+ (3) a probe (no signature) is never granted;
+ (4) the granted identity is the approved one: Transport.get_username() equals the username the
+     approving callback was asked about (for an INFO_RESPONSE: the username given to the
+     check_auth_interactive call that opened the exchange being answered).
 Nothing else is asserted (a crash or disconnect without a grant satisfies the statement).
 """
 from hypothesis import strategies as st
@@ -33,10 +43,14 @@ THOROUGH_WORKERS = 16
 RULE = (
     "hypothesis-generated request programs (1..12 steps, arbitrary order) against a live server-mode Transport with a "
     "generated callback policy (each check_auth_* -> FAILED/PARTIAL/SUCCESSFUL, per password, per key, per interactive round); "
+    "programs are built from single requests and from whole keyboard-interactive exchanges (request + 0..3 INFO_RESPONSE rounds, the "
+    "application's answer generated per round: further InteractiveQuery / FAILED / PARTIAL / SUCCESSFUL) with 0..2 other steps of any "
+    "kind interleaved before each round; every request names the session's user or a generated other user (4 names); "
     "publickey steps over 9 pool keys x their algorithms x 16 signature variants (valid + 15 single-ingredient forgeries incl. a "
     "signature made for another real session); GSS methods against a stub context whose MIC check passes/raises as generated; "
     "non-trivial = the program contains a forged/probe/replayed publickey request, or a step whose responsible callback returns "
-    "non-success, or a failing GSS proof; distinct by (policy, steps)"
+    "non-success, or a failing GSS proof; a grant must also be for the user the approving callback was asked about "
+    "(get_username()); distinct by (policy, steps)"
 )
 
 RES = {"F": peers.AUTH_FAILED, "P": peers.AUTH_PARTIALLY_SUCCESSFUL, "S": peers.AUTH_SUCCESSFUL}
@@ -111,23 +125,66 @@ step = st.one_of(
     st.fixed_dictionaries({"k": st.just("other"), "method": st.sampled_from(["hostbased", "publickey2", "PASSWORD", ""])}),
 )
 
-case_st = st.fixed_dictionaries(
-    {
-        "user": users,
-        "gss": st.sampled_from([True, True, False]),
-        "policy": policies(),
-        "steps": st.lists(step, min_size=1, max_size=12),
-    }
-)
+USERS = ["alice", "", "böb", "root"]
+QRES = ["F", "P", "S", "query"]
+
+
+@st.composite
+def kbd_exchange(draw, min_rounds=0):
+    """One keyboard-interactive exchange as a flat list of steps: the request (result "query" when
+    rounds follow), then per round 0-2 interleaved steps of any kind (each naming, with probability
+    ~1/3, a generated user instead of the session's) and the INFO_RESPONSE with its generated result."""
+    nrounds = draw(st.integers(min_rounds, 3))
+    first = "query" if nrounds else draw(st.sampled_from(["F", "P", "S", "query"]))
+    out = [{"k": "kbd", "sub": draw(st.sampled_from(["", "pam"])), "r": first}]
+    for j in range(nrounds):
+        for stp in draw(st.lists(step, max_size=2)):
+            u = draw(st.sampled_from([None] * 4 + USERS))
+            out.append(dict(stp, u=u) if u is not None and stp["k"] != "resp" else stp)
+        r = "query" if j < nrounds - 1 else draw(st.sampled_from(["F", "P", "S", "S", "query"]))
+        out.append({"k": "resp", "n": draw(st.integers(0, 2)), "r": r})
+    return out
+
+
+@st.composite
+def case_strategy(draw, exchange_centred=False):
+    """exchange_centred: 0-2 single steps, one or two multi-round keyboard-interactive exchanges (with
+    their interleaved steps), 0-2 single steps; otherwise an arbitrary sequence of both kinds of block."""
+    user = draw(users)
+    single = step.map(lambda x: [x])
+    if exchange_centred:
+        blocks = draw(st.lists(single, max_size=2)) + draw(st.lists(kbd_exchange(min_rounds=1), min_size=1, max_size=2)) + draw(st.lists(single, max_size=2))
+    else:
+        blocks = draw(st.lists(st.one_of(single, single, kbd_exchange()), min_size=1, max_size=9))
+    steps = []
+    for b in blocks:
+        for stp in b:
+            if "u" not in stp and stp["k"] != "resp":
+                # any request may name another user (the first evaluated name is what the server pins)
+                u = draw(st.sampled_from([None] * 12 + USERS))
+                if u is not None:
+                    stp = dict(stp, u=u)
+            if stp.get("u") == user:
+                stp = {k: v for k, v in stp.items() if k != "u"}
+            steps.append(stp)
+    return {"user": user, "gss": draw(st.sampled_from([True, True, False])), "policy": draw(policies()), "steps": steps[:16]}
+
+
+case_st = case_strategy()
+exchange_st = case_strategy(exchange_centred=True)
 
 
 # ----------------------------------------------------------------------------- execution
 
 
-def make_policy(case):
+def make_policy(case, cur=None):
+    """`cur` (dict) is filled by execute(): cur["step"] = the step being driven. A kbd / resp step
+    carrying "r" dictates the application's answer for exactly that message; otherwise the
+    case-wide policy ("kbd", and "rounds" indexed by the number of responses judged so far) applies."""
     from paramiko.server import InteractiveQuery
 
     pol = case["policy"]
+    cur = cur if cur is not None else {}
     state = {"round": 0}
 
     def q():
@@ -137,13 +194,18 @@ def make_policy(case):
         name = A.blob_key_name(blob)
         return RES[pol["pk"].get(name, pol["pk"]["default"])]
 
+    def planned(kind):
+        stp = cur.get("step")
+        return stp.get("r") if stp is not None and stp.get("k") == kind else None
+
     def kbd(user, sub):
-        return q() if pol["kbd"] == "query" else RES[pol["kbd"]]
+        r = planned("kbd") or pol["kbd"]
+        return q() if r == "query" else RES[r]
 
     def rounds(responses):
         i = state["round"]
         state["round"] += 1
-        r = pol["rounds"][i] if i < len(pol["rounds"]) else "F"
+        r = planned("resp") or (pol["rounds"][i] if i < len(pol["rounds"]) else "F")
         return q() if r == "query" else RES[r]
 
     return {
@@ -215,6 +277,16 @@ def build_pk(sid, user, stp):
 REQUEST_KINDS = ("none", "password", "pk", "kbd", "gssmic", "keyex", "other")
 
 
+def granted_user(server):
+    """Transport.get_username() - while a GssapiWithMicAuthHandler is installed that call raises
+    (the handler has no get_username); the delegate's view is used then."""
+    try:
+        return server.get_username()
+    except AttributeError:
+        ah = server.auth_handler
+        return getattr(getattr(ah, "_delegate", ah), "auth_username", None)
+
+
 def execute(ctx, case, classes):
     """Runs the program. Returns dict(violation=(clause, bucket, detail)|None, at=index of the last
     executed step, why='granted'|'dead'|'end', nontrivial=bool). Reports nothing itself."""
@@ -223,17 +295,30 @@ def execute(ctx, case, classes):
     steps = case["steps"]
     stub = A.GssStub({})
     out = {"violation": None, "at": -1, "why": "end", "nontrivial": False}
-    srv = peers.RecordingServer(make_policy(case), allowed="password,publickey,keyboard-interactive,gssapi-with-mic,gssapi-keyex,none")
+    cur = {}
+    srv = peers.RecordingServer(make_policy(case, cur), allowed="password,publickey,keyboard-interactive,gssapi-with-mic,gssapi-keyex,none")
+    kx = None  # the open keyboard-interactive exchange: user, rounds judged, steps interleaved so far
+    first_user = None
     with A.gss_installed(stub):
         s = A.ServerSession(srv=srv)
         try:
             for i, stp in enumerate(steps):
                 out["at"] = i
+                cur["step"] = stp
                 k = stp["k"]
+                u = stp.get("u", user)
                 n0 = s.ncalls()
                 proof_ok = True
                 probe = False
                 nxt = steps[i + 1]["k"] if i + 1 < len(steps) else None
+                if k != "resp":
+                    if first_user is None:
+                        first_user = u
+                    elif u != first_user:
+                        classes.add("request-names-another-user")
+                        classes.add("other-user:" + k)
+                        if kx is not None:
+                            classes.add("other-user-inside-kbd-exchange")
                 # ---- which callback is responsible, and what does the policy say
                 if k == "none" or k == "other" or (k in ("gssmic", "keyex") and not case["gss"]):
                     cb, verdict = "check_auth_none", pol["none"]
@@ -242,11 +327,11 @@ def execute(ctx, case, classes):
                 elif k == "pk":
                     cb, verdict = "check_auth_publickey", pol["pk"].get(stp["key"], pol["pk"]["default"])
                 elif k == "kbd":
-                    cb, verdict = "check_auth_interactive", pol["kbd"]
+                    cb, verdict = "check_auth_interactive", stp.get("r") or pol["kbd"]
                 elif k == "resp":
                     cb = "check_auth_interactive_response"
                     resp_i = sum(1 for c in s.calls_since(0) if c[0] == cb)
-                    verdict = pol["rounds"][resp_i] if resp_i < len(pol["rounds"]) else "F"
+                    verdict = stp.get("r") or (pol["rounds"][resp_i] if resp_i < len(pol["rounds"]) else "F")
                 elif k == "gssmic":
                     cb, verdict = "check_auth_gssapi_with_mic", pol["gssmic"]
                     proof_ok = stp["mic_ok"]
@@ -255,40 +340,64 @@ def execute(ctx, case, classes):
                     proof_ok = stp["mic_ok"] and stp["ctx"]
                 # ---- drive
                 if k == "none":
-                    r = s.exchange(A.req_none(user))
+                    r = s.exchange(A.req_none(u))
                 elif k == "other":
-                    r = s.exchange(A.req_other(user, stp["method"]))
+                    r = s.exchange(A.req_other(u, stp["method"]))
                 elif k == "password":
-                    r = s.exchange(A.req_password(user, stp["pw"], new_password="new" if stp["change"] else None))
+                    r = s.exchange(A.req_password(u, stp["pw"], new_password="new" if stp["change"] else None))
                 elif k == "pk":
-                    payload, proof_ok = build_pk(s.sid, user, stp)
+                    payload, proof_ok = build_pk(s.sid, u, stp)
                     probe = stp["v"] == "probe"
                     classes.add("pk:" + stp["v"])
                     classes.add("pkalgo:" + stp["algo"])
                     r = s.exchange(payload)
                 elif k == "kbd":
-                    r = s.exchange(A.req_kbdint(user, stp["sub"]))
+                    r = s.exchange(A.req_kbdint(u, stp["sub"]))
                 elif k == "resp":
                     r = s.exchange(A.info_response(["x"] * stp["n"]))
                 elif k == "keyex":
                     s.server.kexgss_ctxt = A.GssStub({"mic_ok": stp["mic_ok"]}) if stp["ctx"] else None
-                    r = s.exchange(A.req_gss_keyex(user, b"mic-token"))
+                    r = s.exchange(A.req_gss_keyex(u, b"mic-token"))
                     if case["gss"] and not stp["ctx"]:
                         classes.add("keyex-without-context")
                 else:  # gssmic
-                    r = drive_gssmic(s, stub, user, stp, case["gss"], nxt)
+                    r = drive_gssmic(s, stub, u, stp, case["gss"], nxt, classes)
                 replies, dead = r.replies, r.dead
                 calls = s.calls_since(n0)
                 granted = 52 in [t for t, _ in replies] or s.authed()
-                invoked = cb is not None and any(c[0] == cb and (cb == "check_auth_interactive_response" or c[1][0] == user) for c in calls)
+                invoked = cb is not None and any(c[0] == cb and (cb == "check_auth_interactive_response" or c[1][0] == u) for c in calls)
                 if verdict != "S" or not proof_ok or probe:
                     out["nontrivial"] = True
                 classes.add("step:" + k)
+                # ---- bookkeeping of the keyboard-interactive exchange (evidence classes only)
+                asked = [c[1][0] for c in s.calls_since(0) if c[0] == "check_auth_interactive"]
+                got_query = k in ("kbd", "resp") and 60 in [t for t, _ in replies]
+                if k == "resp":
+                    if kx is None:
+                        classes.add("info-response-without-open-exchange")
+                    else:
+                        kx["rounds"] += 1
+                        if not got_query:  # the exchange got its final answer
+                            classes.add("kbd-exchange:rounds=%d" % kx["rounds"])
+                            if kx["between"]:
+                                classes.add("kbd-exchange:interleaved-steps=%d" % min(kx["between"], 3))
+                                classes.add("kbd-exchange-with-interleaved-requests:" + ("granted" if granted else "not-granted"))
+                            kx = None
+                else:
+                    if kx is not None:
+                        kx["between"] += 1
+                    if k == "kbd":
+                        if got_query:
+                            kx = {"rounds": 0, "between": 0}
+                        else:
+                            classes.add("kbd-exchange:rounds=0")
                 if granted:
                     classes.add("granted:" + k)
                     out["why"] = "granted"
                     method = {"pk": "publickey", "kbd": "keyboard-interactive", "resp": "keyboard-interactive", "gssmic": "gssapi-with-mic", "keyex": "gssapi-keyex"}.get(k, k)
-                    detail = "step %d %r: replies %s, callbacks during the step %r, policy verdict %r, proof_ok=%s" % (i, stp, A.reply_kinds(replies), [(c[0],) + tuple(c[1][:1]) for c in calls], verdict, proof_ok)
+                    who = granted_user(s.server)
+                    approved_user = (asked[-1] if asked else None) if k == "resp" else u
+                    detail = "step %d %r (user %r): replies %s, callbacks during the step %r, policy verdict %r, proof_ok=%s, get_username()=%r" % (i, stp, u, A.reply_kinds(replies), [(c[0],) + tuple(c[1][:1]) for c in calls], verdict, proof_ok, who)
                     if probe:
                         out["violation"] = ("probe-granted", "publickey:probe", detail)
                     elif not invoked:
@@ -298,14 +407,24 @@ def execute(ctx, case, classes):
                     elif not proof_ok:
                         b = "publickey:" + stp["v"] if k == "pk" else method + ":mic-rejected"
                         out["violation"] = ("granted-without-valid-proof", b, detail)
+                    elif approved_user is not None and who != approved_user:
+                        out["violation"] = (
+                            "granted-for-another-user",
+                            "%s:get_username-differs-from-approved-user" % method,
+                            detail + "; the application approved %r (users its callbacks were asked about: %r)" % (approved_user, sorted(set(c[1][0] for c in s.calls_since(0) if c[0].startswith("check_auth_") and c[1] and isinstance(c[1][0], str)))),
+                        )
                     else:
                         classes.add("legitimate-grant")
+                        if k == "resp":
+                            classes.add("legitimate-grant:after-%d-rounds" % (sum(1 for c in s.calls_since(0) if c[0] == "check_auth_interactive_response")))
                     return out
                 elif verdict == "S" and proof_ok and not probe and not dead and k != "gssmic":
                     # approving callback + valid proof but no grant: not part of the statement, only counted
                     classes.add("approved-but-not-granted:" + k)
                 if dead:
                     classes.add("ended:" + k)
+                    if k != "resp" and u != first_user:
+                        classes.add("ended:request-for-another-user")
                     out["why"] = "dead"
                     return out
             return out
@@ -338,7 +457,7 @@ def run_case(ctx, case, record=True):
     return res
 
 
-def drive_gssmic(s, stub, user, stp, gss_enabled, nxt):
+def drive_gssmic(s, stub, user, stp, gss_enabled, nxt, classes=None):
     """Runs one gssapi-with-mic exchange; returns a Step holding every reply of the exchange."""
     stub.plan = {"mech_ok": stp["mech_ok"], "mic_ok": stp["mic_ok"]}
     stub._tok = list(stp["tokens"])
@@ -354,6 +473,8 @@ def drive_gssmic(s, stub, user, stp, gss_enabled, nxt):
         return A.Step(replies + r2.replies, r2.dead or r.dead)
     can_abort = nxt in REQUEST_KINDS
     if stp["abort"] == "response" and can_abort:
+        if classes is not None:
+            classes.add("gss-exchange-abandoned-after:response")
         return A.Step(replies, False)
     for t in stp["tokens"]:
         r = s.exchange(A.gss_token(b"client-token"), sentinel=False, expect=0 if t is None else 1)
@@ -362,6 +483,8 @@ def drive_gssmic(s, stub, user, stp, gss_enabled, nxt):
             r2 = s.exchange(None)
             return A.Step(replies + r2.replies, True if r2.dead else r.dead)
     if stp["abort"] == "token" and can_abort and stp["tokens"]:
+        if classes is not None:
+            classes.add("gss-exchange-abandoned-after:token")
         return A.Step(replies, False)
     r = s.exchange(A.gss_mic(b"mic-token"))
     return A.Step(replies + r.replies, r.dead)
@@ -404,6 +527,29 @@ def focused_cases(quick):
         for first in ("query", "P", "F"):
             out.append({"user": "alice", "gss": True, "policy": pol(kbd=first, rounds=["query", verdict]), "steps": [{"k": "kbd", "sub": ""}, {"k": "resp", "n": 1}, {"k": "resp", "n": 1}]})
             out.append({"user": "alice", "gss": True, "policy": pol(kbd=first, rounds=[verdict]), "steps": [{"k": "resp", "n": 0}]})
+    # keyboard-interactive exchanges (1 and 2 rounds) with every kind of request interleaved before the
+    # final round, naming the same user or another one, against every final verdict
+    between = [
+        {"k": "none"},
+        {"k": "password", "pw": "bad", "change": False},
+        {"k": "password", "pw": "good", "change": True},
+        {"k": "pk", "key": "ed25519", "algo": "ssh-ed25519", "v": "probe"},
+        {"k": "pk", "key": "ed25519", "algo": "ssh-ed25519", "v": "sid-other"},
+        {"k": "kbd", "sub": "", "r": "F"},
+        {"k": "other", "method": "hostbased"},
+        {"k": "keyex", "ctx": True, "mic_ok": True},
+        {"k": "gssmic", "mech_ok": True, "oids": 1, "tokens": [b"srv-token"], "mic_ok": True, "abort": "response"},
+    ]
+    for verdict in ("F", "P", "S"):
+        for x in between:
+            for who in (None, "mallory"):
+                xs = dict(x, u=who) if who else x
+                for nrounds in (1, 2):
+                    steps = [{"k": "kbd", "sub": "", "r": "query"}]
+                    if nrounds == 2:
+                        steps.append({"k": "resp", "n": 1, "r": "query"})
+                    steps += [xs, {"k": "none"}, {"k": "resp", "n": 1, "r": verdict}]
+                    out.append({"user": "alice", "gss": True, "policy": pol(keyex="F", pk={"default": "P"}), "steps": steps})
     return out
 
 
@@ -423,6 +569,7 @@ def run(ctx):
             focus.insert(0, dict(c, steps=c["steps"][res["at"] + 1 :]))
     ctx.note("focused_cases_enumerated", done)
     ctx.explore(case_st, lambda c: run_case(ctx, c), ctx.scale(200, 2600), shrink=False)
+    ctx.explore(exchange_st, lambda c: run_case(ctx, c), ctx.scale(200, 1800), shrink=False, seed_offset=1)
     if ctx.classes.get("legitimate-grant", 0) == 0 and not ctx.budget_hit and not ctx.unknown and not ctx.known_hits:
         raise core.HarnessError("no approving+valid request was ever granted: the harness would be vacuous")
 
